@@ -192,7 +192,7 @@ def _case(draw, tier):
         use_ifelse = k == 2 and draw(st.booleans())
         chains = [draw(st.integers(0, 2)) for _ in range(k)]
         joins = [sorted(draw(st.lists(st.integers(0, k - 1), min_size=2, max_size=min(3, k), unique=True))) for _ in range(draw(st.integers(0, 2)))]
-        return {"part": "C", "k": k, "multi": multi, "ifelse": use_ifelse, "chains": chains, "joins": joins, "pick": draw(st.lists(st.integers(0, 30), min_size=2, max_size=2)), "pick3": draw(st.integers(0, 30)) if prob(draw, 0.4) else None,
+        return {"part": "C", "k": k, "multi": multi, "ifelse": use_ifelse, "chains": chains, "joins": joins, "pick": draw(st.lists(st.integers(0, 30), min_size=2, max_size=2)), "pick3": draw(st.integers(0, 30)) if prob(draw, 0.4) else None, "second_family": draw(st.integers(0, 1)) if prob(draw, 0.3) else None,
                 "target_order": draw(st.permutations(list(range(k)))), "node_order": draw(st.lists(st.integers(0, 9), min_size=14, max_size=14))}
     flaw = draw(st.sampled_from(FLAWS))
     if flaw.startswith("strict") or flaw.startswith("edge_"):
@@ -516,6 +516,15 @@ def _part_c(case, ev):
         if n["name"] in prods:
             n["outs"] = n["outs"] + ["r"]
     allnodes = nodes + [gate]
+    second_family = None
+    if case.get("second_family") is not None and not case["multi"]:
+        # an UNRELATED second gate with its own two branches; one more producer of `r` sits in one of them.  Branches of
+        # different gates are not exclusive with each other, whatever their positions.
+        sf = case["second_family"]
+        u = [{"k": "func", "name": f"u{i}", "params": [], "defaults": {}, "outs": [f"vu{i}"] + (["r"] if i == sf % 2 else [])} for i in range(2)]
+        g2 = {"k": "ifelse", "name": "gate2", "params": [], "defaults": {}, "t": "u0", "f": "u1", "table": [True, False]}
+        allnodes = allnodes + u + [g2]
+        second_family = f"u{sf % 2}"
     perm = sorted(range(len(allnodes)), key=lambda i: (case["node_order"][i % len(case["node_order"])], i))
     allnodes = [allnodes[i] for i in perm]
 
@@ -540,6 +549,9 @@ def _part_c(case, ev):
         return mutex or q in reach(p) or p in reach(q)
 
     want_accept = all(pair_ok(p, q) for i, p in enumerate(prods) for q in prods[i + 1:])
+    if second_family is not None:
+        want_accept = False  # the extra producer under the unrelated gate is neither exclusive with nor ordered to the others
+        prods = prods + [second_family + " (under an unrelated gate)"]
     tag = f"conflict k={k} {'multi' if case['multi'] else 'exclusive'} producers {','.join(prods)} joins={case['joins']} targets listed {order}"
 
     ctx = Ctx(compact=True)
